@@ -5,7 +5,7 @@ from .. import AnalysisError
 from ..cfg import flag_filter
 from ..flow import show
 from ..report import ob_ok, ob_fail
-from .common import is_call, method_call, need, guards_of
+from .common import is_call, method_call, need, guards_of, aug_like
 
 
 class Phases:
@@ -507,8 +507,9 @@ def ord_compute_mass(repo, tier="quick"):
     # the mass accumulates PTE[element]['AtomicMass'] over the nodes of the working copy, after the rebuild
     acc = None
     for n in fi.cfg.nodes:
-        if n.kind == "stmt" and isinstance(n.ast, ast.AugAssign) and isinstance(n.ast.op, ast.Add):
-            v = fl.canon(n.ast.value, n.id)
+        al = aug_like(n.ast) if n.kind == "stmt" and isinstance(n.ast, (ast.AugAssign, ast.Assign)) else None
+        if al and al[1] is ast.Add:
+            v = fl.canon(al[2], n.id)
             if v[0] == "sub" and v[2] == ("const", "AtomicMass") and v[1][0] == "sub" and v[1][1] == ("ext", "pysmiles.PTE"):
                 acc = (n, v[1][2])
     if acc is None:
